@@ -63,22 +63,32 @@ def translate(ctx: C.Ctx) -> List[str]:
 
 def gen_objects(seed: int, n: int, tier: str, falsy_bias: float = 0.35):
     """n (index, object) pairs: identifiables of every kind; deterministic in (seed, index)."""
-    from vf import gen
     out = []
     for i in range(n):
-        g = gen.Gen(random.Random(f"C03obj:{seed}:{i}"), max_depth=3 if tier == "quick" else 4, falsy_bias=falsy_bias)
-        kind = i % 3
-        obj = g.submodel() if kind == 0 else g.shell() if kind == 1 else g.concept_description()
-        out.append((i, obj, g.stats))
+        obj, stats = _make(seed, i, 3 if tier == "quick" else 4, falsy_bias)
+        out.append((i, obj, stats))
     return out
 
 
+def _make(seed: int, i: int, depth: int, falsy_bias: float):
+    """object #i: identifiables (i%5 in 0..2) and bare submodel elements of every class as roots (i%5 in 3..4)"""
+    from vf import gen, meta
+    g = gen.Gen(random.Random(f"C03obj:{seed}:{i}"), max_depth=depth, falsy_bias=falsy_bias)
+    kind = i % 5
+    if kind == 0:
+        obj = g.submodel()
+    elif kind == 1:
+        obj = g.shell()
+    elif kind == 2:
+        obj = g.concept_description()
+    else:
+        classes = meta.SUBMODEL_ELEMENT_CLASSES
+        obj = g.element(1, classes[(i // 5 * 2 + kind) % len(classes)])
+    return obj, g.stats
+
+
 def regen(case: dict):
-    from vf import gen
-    g = gen.Gen(random.Random(f"C03obj:{case['seed']}:{case['index']}"), max_depth=case.get("depth", 3),
-                falsy_bias=case.get("falsy_bias", 0.35))
-    kind = case["index"] % 3
-    return g.submodel() if kind == 0 else g.shell() if kind == 1 else g.concept_description()
+    return _make(case["seed"], case["index"], case.get("depth", 3), case.get("falsy_bias", 0.35))[0]
 
 
 # ----------------------------------------------------------------------------------------------- correspondence
@@ -95,7 +105,7 @@ def correspond(ctx: C.Ctx, cov: C.Coverage) -> List[C.Disagreement]:
                 "(quick) / 4 (thorough). Per object: writer output vs model enc, strict reader result vs model dec. non-trivial = "
                 "object has >=1 falsy leaf or depth>=2; distinct = by canonical value")
     lines, expect, index = [], [], []
-    poly = ["poly", meta.IDENTIFIABLE_CLASSES]
+    poly = ["poly", meta.IDENTIFIABLE_CLASSES + meta.SUBMODEL_ELEMENT_CLASSES]
     for i, obj, stats in objs:
         v = T.to_val(obj)
         s = json.dumps(obj, cls=AASToJsonEncoder)
@@ -192,6 +202,12 @@ def check_object(obj, case: dict, how: str = "text") -> Optional[C.Failing]:
     from vf import canon
     c1 = canon.canon(obj)
     try:
+        if not isinstance(obj, model.Identifiable):
+            o3 = json.loads(json.dumps(obj, cls=AASToJsonEncoder), cls=StrictAASFromJsonDecoder)
+            d = canon.diff(c1, canon.canon(o3)) if not isinstance(o3, dict) else "decoder returned a dict"
+            if d:
+                return C.Failing(sig_of(d), f"{type(obj).__name__} via encoder/decoder classes: {d[:200]}", case, d)
+            return None
         st2 = roundtrip_store(model.DictObjectStore([obj]), how)
         objs2 = list(st2)
         if len(objs2) != 1 or type(objs2[0]) is not type(obj):
